@@ -132,3 +132,14 @@ Theorem C05_creation_in_reverted_frame_keeps_the_nonce_example :
   b_nonce (model_obs w_cr_nested_reverted_then_selfdestruct) = [0; 1; 0] /\ nth 0 (b_bal (model_obs w_cr_nested_reverted_then_selfdestruct)) 0 = 4966.
 Proof. exact cr_nested_reverted_then_selfdestruct. Qed.
 Print Assumptions C05_creation_in_reverted_frame_keeps_the_nonce_example.
+
+(** The frame theorem with CREATE: for every call tree without precompile calls — value transfers, storage writes,
+    logs, self-destructs, reverts, and contract creations whose constructors run any such code, at any depth — the
+    execution of an instruction leaves the Cosmos side untouched and extends the journal cleanly: reverting to any
+    earlier snapshot (what an enclosing frame that fails does) restores every cache observable. *)
+Theorem C05_pure_code_with_creations_is_a_clean_journal_extension :
+  forall i, purec i = true -> forall order o self W D, wf W D ->
+    fst (fst (exec_instr order o self i (W, D))) = W /\
+    ext W D (snd (fst (exec_instr order o self i (W, D)))).
+Proof. exact purec_instr_ext. Qed.
+Print Assumptions C05_pure_code_with_creations_is_a_clean_journal_extension.
